@@ -427,6 +427,16 @@ func (e *c01env) record(op, kind, out string) {
 			e.seen = true
 		}
 	}
+	if os.Getenv("VERIF_C01_DEBUG") != "" { // development aid
+		inm := []string{}
+		for _, n := range e.names {
+			if e.cfg.mem && e.cas.CheckInMemCache(e.tab.names[n]) {
+				inm = append(inm, strconv.Itoa(n))
+			}
+		}
+		fmt.Fprintf(os.Stderr, "C01DBG %d %s -> %s inmem=%v queue=%d now=%d\n", len(e.ops), op, out, inm, e.cas.VerifC01QueueLen(),
+			e.mc.Now().Sub(time.Unix(0, 0))/time.Millisecond)
+	}
 	e.ops = append(e.ops, op)
 	if d, h := verifhlib.List(dv), verifhlib.List(hv); d == h {
 		e.obs = append(e.obs, "OB "+out+" "+d)
@@ -675,7 +685,7 @@ func c01concat(w c01stream) []byte {
 
 func (e *c01env) refresh(o *c01op) {
 	nm := e.tab.names[o.name]
-	calls, rsv := 0, false
+	calls, rsv, split := 0, false, false
 	cb := func(w io.Writer) error {
 		calls++
 		if calls == 1 {
@@ -683,7 +693,18 @@ func (e *c01env) refresh(o *c01op) {
 			e.runAll(o.nested)
 			return e.play(w, o.w1)
 		}
-		e.runAll(o.nested2)
+		if len(o.nested2) > 0 {
+			// The memory attempt has failed and the disk attempt begins.  Whether the memory attempt
+			// fails depends on the state at that moment (a duplicate entry), so when other calls run
+			// during the second download the two attempts are recorded as two operations: the memory
+			// attempt (its disk attempt replaced by a failing stream: no effect) here, the disk attempt
+			// (a refresh without reservation) at the end.
+			split = true
+			e.tab.cid(c01concat(o.w1))
+			e.record(fmt.Sprintf("Refresh %d %s %d %s (mkstream [] true) %s", o.name, verifhlib.B(rsv), o.stat, e.streamCoq(o.w1), c01z(o.pl)),
+				"Refresh-memory-attempt-failed", "OErr")
+			e.runAll(o.nested2)
+		}
 		return e.play(w, o.w2)
 	}
 	var err error
@@ -754,6 +775,11 @@ func (e *c01env) refresh(o *c01op) {
 	path := "disk"
 	if rsv {
 		path = "mem"
+	}
+	if split {
+		e.record(fmt.Sprintf("Refresh %d false %d %s %s %s", o.name, o.stat, e.streamCoq(o.w2), e.streamCoq(o.w2), c01z(o.pl)),
+			kind+"-disk-attempt-"+out, out)
+		return
 	}
 	e.record(fmt.Sprintf("Refresh %d %s %d %s %s %s", o.name, verifhlib.B(rsv), o.stat, e.streamCoq(o.w1), e.streamCoq(o.w2), c01z(o.pl)),
 		kind+"-"+path+"-"+out, out)
@@ -1186,8 +1212,17 @@ func c01driver(ctx *verifhlib.Ctx) {
 	if ctx.Tier == "thorough" {
 		maxLen = 30
 	}
+	only := map[int]bool{} // development aid: VERIF_C01_ONLY=i,j runs just these generated cases
+	for _, f := range strings.Split(os.Getenv("VERIF_C01_ONLY"), ",") {
+		if i, err := strconv.Atoi(f); err == nil {
+			only[i] = true
+		}
+	}
 	for ; n < ctx.N; n++ {
 		cr := r.Fork()
+		if len(only) > 0 && !only[n] {
+			continue
+		}
 		cfg := c01genCfg(cr)
 		blobs := c01genBlobs(cr, ctx.Tier == "thorough")
 		e := c01newEnv(ctx, cfg, lenchk, blobs)
